@@ -10,6 +10,7 @@ recorded=' '.join(str(f.get('commit','')) for f in d['findings'])
 PROP={  # property each repair was triaged under
  'ready queue stalled':'C06',
  'released a parked publish over':'C02',
+ 'handed out again while its QoS 2':'C07',
 }
 added=0
 for sha,subj in fixes:
